@@ -39,6 +39,10 @@ ASSERT_WHITELIST = {
 }
 
 
+# the same entries by function path alone: a function keeps its entry when it is moved to another module
+_BY_PATH = {k.split(":")[1]: v for k, v in ASSERT_WHITELIST.items()}
+
+
 def check(run: Run) -> None:
     m = run.model
     mod = "func_adl.type_based_replacement"
@@ -182,7 +186,7 @@ def check(run: Run) -> None:
                     if Facts(fa, n).isinstance_of(st, cls_names):
                         run.ok("C10.R4", fi, f"assert {ast.unparse(t)[:60]}: already known where it is made")
                         continue
-                wl = ASSERT_WHITELIST.get(fi.qual)
+                wl = ASSERT_WHITELIST.get(fi.qual) or _BY_PATH.get(fi.qual.split(":")[1])
                 run.check(wl is not None, "C10.R4", fi, n, f"assert {ast.unparse(t)[:50]} (enumerated: {wl})", f"assert {ast.unparse(t)[:80]} on the operators' lambda pipeline is not an enumerated internal invariant: a valid expression may end in AssertionError instead of a designed ValueError")
     run.floor("C10.R4", n_raise, 25, "explicit raises on the pipeline")
     run.floor("C10.R4", n_assert, 15, "asserts on the pipeline")
